@@ -48,6 +48,9 @@ Error ArenaBitSet::copy_from(Arena& arena, const ArenaBitSet& other) noexcept {
       allocated_capacity_in_bits = minimum_capacity_in_bits;
     }
 
+    // `_capacity` is 32-bit - never report more than it can hold (the block itself may be larger).
+    allocated_capacity_in_bits = Support::min<size_t>(allocated_capacity_in_bits, size_t(0xFFFFFFC0u));
+
     if (data) {
       arena.free_reusable(data, _capacity / 8);
     }
@@ -82,6 +85,11 @@ Error ArenaBitSet::_resize(Arena& arena, size_t new_size, size_t ideal_capacity,
     return Error::kOk;
   }
 
+  // Size and capacity are 32-bit - a bit-vector that cannot be described by them cannot be created.
+  if (ASMJIT_UNLIKELY(new_size > size_t(0xFFFFFFC0u))) {
+    return make_error(Error::kOutOfMemory);
+  }
+
   size_t old_size = _size;
   BitWord* data = _data;
 
@@ -110,6 +118,9 @@ Error ArenaBitSet::_resize(Arena& arena, size_t new_size, size_t ideal_capacity,
     if (ASMJIT_UNLIKELY(allocated_capacity_in_bits < allocated_capacity)) {
       allocated_capacity_in_bits = minimum_capacity_in_bits;
     }
+
+    // `_capacity` is 32-bit - never report more than it can hold (the block itself may be larger).
+    allocated_capacity_in_bits = Support::min<size_t>(allocated_capacity_in_bits, size_t(0xFFFFFFC0u));
 
     _copy_bits(new_data, data, _words_per_bits(old_size));
 
